@@ -9,6 +9,7 @@ original.
 import re
 from vf import common, gnuref, x86ref, x86space
 from vf.checks.c03 import family
+from vf.checks import c03
 
 PROPERTY = 'C09'
 RULE = ('the C01 byte space without redundant prefixes (opcode cells x 256 ModRM x SIB/filler classes, prefixes none/66 and a reduced set for 67/segment/rep/lock; the SIB classes include base == index with a scale), '
@@ -86,7 +87,7 @@ def analyse(sh, items):
         if '67' in pc:
             fam, sig = ('addr16' if not fam.startswith('MMX-SSE') else fam), '*'
         elif 'seg' in pc and not fam.startswith('MMX-SSE'):
-            fam = 'seg-override'
+            fam = c03.seg_family(mn)
         wit = {'bytes': bb.hex()}
         canonical = canon_asm[i][0] == bb
         # clause 1: AT&T rendering through miasmX's own AT&T parser
@@ -151,7 +152,7 @@ def run_shard(shard, tier, seed):
                 items.append((b, cls))
     else:
         modrms = (0x00, 0x05, 0x44, 0x84, 0xc1, 0xd8, 0xf9, 0x24)
-        pf = [b'\x67', b'\xf2', b'\xf3', b'\xf0', b'\x64', b'\x2e', b'\x66\x67']
+        pf = [b'\x67', b'\xf2', b'\xf3', b'\xf0', b'\x64', b'\x2e', b'\x66\x67', b'\x26', b'\x36', b'\x3e', b'\x65']
         for cell in cl:
             for b, cls in x86space.strings_for_cell(cell, 'quick', seed, prefixes=pf, modrms=modrms, sibs=[0x24, 0x65], nfill=0):
                 items.append((b, cls))
